@@ -666,7 +666,16 @@ def _split_code_lines(ast_nodes, text):
                     # string that's the last child of the parent node.
                     # Therefore we don't assert 'not
                     # _is_comment_or_blank(...)'.]
-                    pass
+                    #
+                    # If only whitespace (a form feed, say) precedes the next
+                    # node on its line (an import statement; see split_pos),
+                    # then that whitespace is noncode, and so are standalone
+                    # comments and blank lines above it: they do not belong to
+                    # this statement.
+                    line_start = FilePos(endpos.lineno, 1)
+                    if (endpos.lineno > last_lineno and
+                        not text[line_start:endpos].joined.strip(" \t\f")):
+                        endpos = line_start
             if endpos.colno == 1:
                 while (endpos.lineno-1 > last_lineno and
                        _is_comment_or_blank(text[endpos.lineno-1]) and
